@@ -76,6 +76,8 @@ def programs(tier, seed):
         (P2, ["and", [">=", ["f", "?x"], "1"], [">=", ["f", "?y"], "1"]],
          ["and", ["when", ["and", ["p", "?x"], ["p", "?y"]], ["and", ["q", "?x", "?y"]]], ["increase", ["f", "?x"], ["f", "?y"]],
           ["decrease", ["f", "?y"], ["f", "?x"]]]),
+        (P2, ["and", ["r"]], ["and", ["p", "?x"], ["p", "?y"], ["when", ["r"], ["and", ["not", ["q", "?x", "?y"]], ["not", ["q", "?y", "?x"]]]],
+                               ["increase", ["f", "?x"], "1"], ["increase", ["f", "?y"], "2"]]),
         (P2, ["and", ["forall", ["?z", "-", "t1"], ["or", ["q", "?z", "?x"], ["q", "?z", "?y"]]]],
          ["and", ["forall", ["?z", "-", "t1"], ["when", ["and", ["q", "?x", "?z"], ["q", "?y", "?z"]], ["and", ["not", ["q", "?x", "?z"]]]]]]),
     ]
